@@ -3,8 +3,14 @@ import r_ticket
 import r_m1
 import r_ovf
 import r_state
+import r_fwd
 
 PROPS = {
+    "C13": {
+        "rules": [r_fwd.rule_fwd],
+        "floors": {},
+        "explanation": "tbd",
+    },
     "C06": {
         "rules": [r_state.rule_skip, r_state.rule_seq, r_state.rule_len, r_state.rule_done],
         "floors": {},
